@@ -31,6 +31,43 @@ fn esc(s: &str) -> String {
     o
 }
 
+/// bytes of a `&str` / `&&str` / `&[u8]` constant value
+fn str_bytes<'tcx>(tcx: TyCtxt<'tcx>, cv: ConstValue, ty: ty::Ty<'tcx>, depth: usize) -> Option<Vec<u8>> {
+    use rustc_middle::mir::interpret::{GlobalAlloc, Scalar};
+    if depth > 3 { return None; }
+    match cv {
+        ConstValue::Slice { .. } => cv.try_get_slice_bytes_for_diagnostics(tcx).map(|b| b.to_vec()),
+        ConstValue::Scalar(Scalar::Ptr(ptr, _)) => {
+            // a reference to something: `&&str` -> the allocation holds a (ptr, len) pair
+            let inner = match ty.kind() { ty::Ref(_, inner, _) => *inner, _ => return None };
+            let (prov, off) = ptr.prov_and_relative_offset();
+            let GlobalAlloc::Memory(alloc) = tcx.global_alloc(prov.alloc_id()) else { return None };
+            let a = alloc.inner();
+            let start = off.bytes() as usize;
+            match inner.kind() {
+                ty::Ref(_, pointee, _) if pointee.is_str() || matches!(pointee.kind(), ty::Slice(_)) => {
+                    // fat pointer at `start`: data pointer (with provenance) then length
+                    let ptr_size = tcx.data_layout.pointer_size().bytes() as usize;
+                    let lenb = a.inspect_with_uninit_and_ptr_outside_interpreter(start + ptr_size..start + 2 * ptr_size);
+                    let mut len: usize = 0;
+                    for (i, b) in lenb.iter().enumerate() { len |= (*b as usize) << (8 * i); }
+                    let p = a.provenance().ptrs().iter().find(|(o, _)| o.bytes() as usize == start)?;
+                    let GlobalAlloc::Memory(data) = tcx.global_alloc(p.1.alloc_id()) else { return None };
+                    let d = data.inner();
+                    let offb = a.inspect_with_uninit_and_ptr_outside_interpreter(start..start + ptr_size);
+                    let mut o: usize = 0;
+                    for (i, b) in offb.iter().enumerate() { o |= (*b as usize) << (8 * i); }
+                    if o + len <= d.len() && len < 4096 {
+                        Some(d.inspect_with_uninit_and_ptr_outside_interpreter(o..o + len).to_vec())
+                    } else { None }
+                }
+                _ => None,
+            }
+        }
+        _ => None,
+    }
+}
+
 struct Cx<'tcx> { tcx: TyCtxt<'tcx>, body: &'tcx Body<'tcx>, env: TypingEnv<'tcx> }
 
 fn line_of(tcx: TyCtxt<'_>, sp: rustc_span::Span) -> usize {
@@ -84,6 +121,16 @@ impl<'tcx> Cx<'tcx> {
                     // string / byte string constants
                     if let Some(bytes) = cv.try_get_slice_bytes_for_diagnostics(self.tcx) {
                         val = esc(&bytes.iter().map(|b| format!("{:02x}", b)).collect::<String>());
+                    }
+                }
+                if val == "null" {
+                    // named / promoted constants (`const NAME: &str`, `&"lit"`): evaluate, then read the string
+                    if let Const::Unevaluated(uv, _) = c.const_ {
+                        if let Ok(cv) = self.tcx.const_eval_resolve(self.env, uv, rustc_span::DUMMY_SP) {
+                            if let Some(b) = str_bytes(self.tcx, cv, ty, 0) {
+                                val = esc(&b.iter().map(|b| format!("{:02x}", b)).collect::<String>());
+                            }
+                        }
                     }
                 }
                 if val == "null" {
